@@ -228,6 +228,7 @@ def stream_case(draw, shard, tier, kinds=None, nmin=1, nmax=4, station=False, pr
     k = draw(st.integers(nmin, nmax))
     case["listeners"] = [draw(listener_spec(case, pool)) for _ in range(k)]
     case["listeners_as"] = draw(st.sampled_from(["list", "list", "tuple", "single"]))
+    case["range_as"] = draw(st.sampled_from(["start-stop-step", "start-stop-step", "stop-timedelta", "dates", "dates-list"]))
     return case
 
 
@@ -409,8 +410,19 @@ def run_stream(source, case, listeners, rng=None):
     how = case.get("listeners_as", "list")
     given = tuple(listeners) if how == "tuple" else (listeners[0] if (how == "single" and len(listeners) == 1) else list(listeners))
     kwargs = dict(listeners=given)
+    spelling = case.get("range_as", "start-stop-step")
     if case["prop"] == "ephem" and case.get("ephem_native") and rng is None:
         it = source.iter(**kwargs)
+    elif spelling == "stop-timedelta" and case["prop"] != "keplernum":
+        it = source.iter(start=start, stop=stop - start, step=step, **kwargs)  # the stop given as a duration
+    elif spelling == "dates" and case["prop"] in ("kepler", "j2", "sgp4", "ephem"):
+        from beyond.dates import Date
+
+        it = source.iter(dates=Date.range(start, stop, step, inclusive=True), **kwargs)
+    elif spelling == "dates-list" and case["prop"] in ("kepler", "j2", "sgp4", "ephem"):
+        from beyond.dates import Date
+
+        it = source.iter(dates=list(Date.range(start, stop, step, inclusive=True)), **kwargs)
     else:
         it = source.iter(start=start, stop=stop, step=step, **kwargs)
     return collect(it, start, listeners, 4 * case["n"] + 200)
@@ -708,6 +720,8 @@ def classes_of(case, stats):
         cls.append(f"body:{case['body']}")
     if case.get("listeners_as", "list") != "list":
         cls.append(f"listeners-as:{case['listeners_as']}")
+    if case.get("range_as", "start-stop-step") != "start-stop-step":
+        cls.append(f"range-as:{case['range_as']}")
     if "el" in case and case["el"]["e"] > 0.5:
         cls.append("molniya")
     if stats.get("multi"):
@@ -1193,6 +1207,10 @@ def reuse_case(draw, shard, tier):
         ops.append(dict(lo=lo, hi=hi) if draw(st.integers(0, 2)) else dict(lo=0, hi=n))
     case["ops"] = [dict(lo=0, hi=n)] + ops + [dict(lo=0, hi=n)]
     case["clone_listeners"] = draw(st.sampled_from(["none", "copy", "deepcopy", "pickle", "deepcopy"]))
+    # between two iterations the caller changes a listener in place (threshold, anomaly value, light type, frame)
+    case["retune"] = dict(at=draw(st.integers(1, 3)), value=draw(go.uniform(-math.pi, math.pi)),
+                          elev=draw(st.sampled_from([0.0, 0.0873, 0.1745])), type=draw(st.sampled_from(["umbra", "penumbra"])),
+                          frame=draw(st.sampled_from([None, "EME2000"]))) if draw(st.booleans()) else None
     return case
 
 
@@ -1205,6 +1223,8 @@ def check_reuse(case):
     start, stop, step = grid(case)
     seen = {}
     total = 0
+    retuned = False
+    specs = [dict(x) for x in specs]
     for k, op in enumerate(case["ops"]):
         if k == 1 and case.get("clone_listeners", "none") != "none" and not any(sp["kind"] in STATION_KINDS + ["terminator"]
                                                                                  for sp in specs):
@@ -1212,6 +1232,19 @@ def check_reuse(case):
             from ..gen import dates as gd
 
             listeners = [gd.clone(x, case["clone_listeners"]) for x in listeners]
+        rt = case.get("retune")
+        if rt and k == rt["at"]:
+            for spec, lis in zip(specs, listeners):
+                if spec["kind"] == "anomaly":
+                    lis.value = spec["value"] = rt["value"]
+                elif spec["kind"] == "signal":
+                    lis.elev = spec["elev"] = rt["elev"]
+                elif spec["kind"] == "light":
+                    lis.type = spec["type"] = rt["type"]
+                elif spec["kind"] in ("node", "apside"):
+                    lis.frame = spec["frame"] = rt["frame"]
+            case = dict(case, listeners=[dict(x) for x in specs])
+            retuned = True
         rng = (start + step * op["lo"], start + step * op["hi"], step)
         sub = dict(case, n=op["hi"] - op["lo"], n0=case["n"])
         items = run_stream(source, sub, listeners, rng=rng)
@@ -1228,7 +1261,7 @@ def check_reuse(case):
             raise Violation("reuse-differs", f"{what}: iteration #{k} over samples {op['lo']}..{op['hi']} with re-used listener "
                                              f"objects gives {len(stream)} items, fresh listeners give {len(ref)}; first "
                                              f"differences {diff}")
-        key = (op["lo"], op["hi"])
+        key = (op["lo"], op["hi"], retuned)
         if key in seen and seen[key] != stream:
             raise Violation("reuse-not-repeatable", f"{what}: iteration #{k} over samples {op['lo']}..{op['hi']} differs from the "
                                                     f"earlier iteration over the same range")
@@ -1237,7 +1270,8 @@ def check_reuse(case):
             raise Violation("reuse-leak", f"{what}: iteration #{k} starts with event {stream[0][1]} before its first sample")
     stats = dict(events=total, multi=False, skipped=0)
     return dict(nt=total > 0, cls=classes_of(case, stats) + [f"ops:{len(case['ops'])}"]
-                + ([f"listeners-cloned:{case['clone_listeners']}"] if case.get("clone_listeners", "none") != "none" else []))
+                + ([f"listeners-cloned:{case['clone_listeners']}"] if case.get("clone_listeners", "none") != "none" else [])
+                + (["listener-changed-in-place"] if retuned else []))
 
 
 # ------------------------------------------------------------------ the same listeners serve different orbits
@@ -1685,6 +1719,71 @@ def check_tie(case):
                               f"events-at-the-tie:{min(len(events), 3)}", f"listeners-as:{case['listeners_as']}"])
 
 
+# ------------------------------------------------------------------ two iterations of one orbit alive at once
+
+
+@st.composite
+def interleaved_case(draw, shard, tier):
+    case = draw(stream_case(shard, tier, nmin=1, nmax=2, props=("kepler", "kepler", "j2", "sgp4", "ephem")))
+    case["ephem_native"] = False
+    case["n"] = min(case["n"], 60)
+    case["listeners_as"] = "list"
+    case["range_as"] = "start-stop-step"
+    case["second"] = dict(lo=draw(st.integers(0, 20)), listeners=[draw(listener_spec(case, ["node", "apside", "anomaly", "light"]))
+                                                                    for _ in range(draw(st.integers(1, 2)))],
+                          pattern=draw(st.lists(st.integers(1, 5), min_size=2, max_size=6)))
+    return case
+
+
+def check_interleaved(case):
+    """ONE orbit / ephemeris object serves two iterations at once (different ranges, their own listener
+    objects), advanced in turns: each stream is the one it gives when run alone."""
+    what = describe(case)
+    start, stop, step = grid(case)
+    sec = case["second"]
+    case2 = dict(case, listeners=sec["listeners"])
+    lo = min(sec["lo"], max(0, case["n"] - 9))
+    rng2 = (start + step * lo, stop, step)
+    solo = []
+    for cs, rng in ((case, None), (case2, rng2)):
+        src, _ = make_source(cs)
+        _, lis = make_listeners(cs)
+        solo.append([(it.us, it.label, it.lis) for it in run_stream(src, dict(cs, n=cs["n"] - (lo if rng else 0)), lis, rng=rng)])
+    source, _ = make_source(case)
+    _, lis1 = make_listeners(case)
+    _, lis2 = make_listeners(case2)
+    if any(a is b for a in lis1 for b in lis2):
+        return dict(nt=False, cls=["shared-terminator-listener"])
+    g1 = source.iter(start=start, stop=stop, step=step, listeners=list(lis1))
+    g2 = source.iter(start=rng2[0], stop=stop, step=step, listeners=list(lis2))
+    got = [[], []]
+    gens = [(g1, start, lis1), (g2, rng2[0], lis2)]
+    alive = [True, True]
+    turn = 0
+    pattern = sec["pattern"]
+    while any(alive):
+        j = turn % 2
+        for _ in range(pattern[turn % len(pattern)]):
+            if not alive[j]:
+                break
+            o = next(gens[j][0], None)
+            if o is None:
+                alive[j] = False
+                break
+            it = Item(o, gens[j][1], gens[j][2])
+            got[j].append((it.us, it.label, it.lis))
+        turn += 1
+        if turn > 2000:
+            raise Violation("stream-runaway", f"{what}: interleaved iterations do not end")
+    for j in (0, 1):
+        if got[j] != solo[j]:
+            diff = [(a, b) for a, b in zip(got[j], solo[j]) if a != b][:2]
+            raise Violation("interleaved-iterations", f"{what}: stream #{j} advanced in turns with another iteration of the same "
+                                                      f"object has {len(got[j])} items, alone {len(solo[j])}; first differences {diff}")
+    n_ev = sum(1 for x in got[0] + got[1] if x[1] is not None)
+    return dict(nt=n_ev > 0, cls=classes_of(case, dict(events=n_ev, multi=False, skipped=0)))
+
+
 # ------------------------------------------------------------------ facets
 
 FACETS = [
@@ -1725,6 +1824,8 @@ FACETS = [
     Facet("tie_on_a_sample", tie_case, check_tie, setup=setup, shrink_quick=False,
           rule="the watched quantity is exactly 0.0 on a sample between two samples of opposite sign",
           quick=(4, 12), thorough=(16, 60)),
+    Facet("interleaved", interleaved_case, check_interleaved, setup=setup, shrink_quick=False,
+          rule="at least one event in either stream", quick=(4, 5), thorough=(16, 30)),
     Facet("reuse", reuse_case, check_reuse, setup=setup, shrink_quick=False,
           rule="at least one event over the history", quick=(4, 4), thorough=(16, 25)),
 ]
